@@ -116,6 +116,12 @@ def runTillage (pending : Nat → Bool) : Nat → List Nat → List Nat → List
     if zeit = einte'.getD k 0 + 1 then (zeit, k) :: runTillage pending (k + 1) einte' days
     else runTillage pending k einte' days
 
+/-- nitro.go (tillage step): the mixing and the management event are inside `if g.EINT[NTIL] > 0`, the
+increment `g.NTIL.Inc()` is behind it — a tillage line of depth 0 is carried out as "nothing", moves the
+cursor like any other line (`runTillage` does not look at the depth) and writes no event. Fertiliser lines
+with amount 0 and irrigation lines with 0 mm are not treated specially (event written, amounts 0). -/
+def tillageLogged (depth : Nat) : Bool := decide (0 < depth)
+
 /-! ### fertiliser split and irrigation (numeric, polymorphic) -/
 
 section
